@@ -73,7 +73,10 @@ func RouteUDP(bindFunc func() (*net.UDPConn, error), streamTimeout time.Duration
 					}
 				}
 				streamsMutex.Lock()
-				delete(streams, addr.String())
+				// the address may already belong to a newer stream
+				if streams[addr.String()] == stream {
+					delete(streams, addr.String())
+				}
 				streamsMutex.Unlock()
 				stream.Close()
 				return
@@ -86,7 +89,9 @@ func RouteUDP(bindFunc func() (*net.UDPConn, error), streamTimeout time.Duration
 		if err != nil {
 			log.Tracef("copying proxy client to stream: %v", err)
 			streamsMutex.Lock()
-			delete(streams, addr.String())
+			if streams[addr.String()] == stream {
+				delete(streams, addr.String())
+			}
 			streamsMutex.Unlock()
 			stream.Close()
 			continue
